@@ -54,6 +54,9 @@ CHECKS = {
  "C16": ("exploration", "differential run of generated etcd request histories against an etcd-semantics reference model at the real etcd.RPCServer handlers, incl. a generated family of unsupported transactions with a state-unchanged monitor", "5 C16",
    "Held (apart from the recorded Count finding) on generated histories of the four Kubernetes transaction shapes with correct/stale/zero expectations, point/range/limited/old-revision reads, count-only, a prefix watch with prev_kv, and 16 kinds of unsupported transactions which must be rejected and leave the store unchanged.",
    "handlers are called directly (no gRPC transport in the quick tier); EnableEtcdCompatibility on"),
+ "C17": ("exploration", "expiry monitor over an engine dump + reads + watch stream, with TTL shortened through the verif hook / the scanner's public config, ages measured on the monotonic clock", "5 C17",
+   "Held on generated histories mixing Event keys with look-alike keys on engines without native TTL (built-in compaction expiry, scanner driven directly and through a backend) and with native TTL (memkv, Badger), plus 1h-TTL controls: whatever lost records was an Event under <prefix>/events/, older than the TTL, removed wholly, creatable again, and no watch event was produced.",
+   "expiry is never demanded, only constrained; a key counts as younger than the TTL only if its newest write BEGAN less than TTL before the observation"),
 }
 def cmd(p, tier): return "./bin/kbcheck %s --tier %s" % (p, tier)
 hooks = subprocess.run(["git","-C","/repo","log","--format=%H %s"],capture_output=True,text=True).stdout.splitlines()
